@@ -13,7 +13,7 @@ import (
 
 func init() {
 	Register(&Scenario{Prop: "C08", Name: "eventlog-windows", Run: scenC08, Weight: 1,
-		Rule: "1-3 writer replicas of one event log; 3-12 (thorough 3-30) Add interleaved with replication under faults; after every quiescent step each replica's listing must only grow and keep relative order, respect causal order; at checkpoints (listing <= 14 entries) every combination of bound kind {none,gt,gte,lt,lte} x bound position x amount {unset,0,1,2,len-1,len,len+3,-1} is compared with the model window, and Get(hash) for every entry; non-trivial = >=3 entries and >=1 window check on a listing that contains entries of two writers or >=4 entries"})
+		Rule: "1-3 writer replicas of one event log; 3-12 (thorough 3-30) Add (one in four a burst of 2-3 concurrent writers, parked at the write-path points or free-running under seeded yields) interleaved with replication under faults; after every quiescent step each replica's listing must only grow and keep relative order, respect causal order; at checkpoints (listing <= 14 entries) every combination of bound kind {none,gt,gte,lt,lte} x bound position x amount {unset,0,1,2,len-1,len,len+3,-1} is compared with the model window, and Get(hash) for every entry; non-trivial = >=3 entries and >=1 window check on a listing that contains entries of two writers or >=4 entries"})
 }
 
 func scenC08(k *K) {
@@ -27,18 +27,34 @@ func scenC08(k *K) {
 	prev := make([][]string, n)
 	windows := 0
 	multi := false
+	prevList := make([][]string, n)
 	k.Invariant = func() {
 		for i, s := range c.Stores {
 			cur := LogHashSeq(s)
 			if !isSubsequence(prev[i], cur) {
-				k.Failf("C08/not-append-only", "n%d listing changed from %v to %v (an entry vanished or two entries swapped)", i, c.names(prev[i]), c.names(cur))
+				k.Failf("C08/not-append-only", "n%d log order changed from %v to %v (an entry vanished or two entries swapped)", i, c.names(prev[i]), c.names(cur))
 			}
 			prev[i] = cur
-			// listing == log order
 			all := -1
 			ops, err := s.(iface.EventLogStore).List(context.Background(), &iface.StreamOptions{Amount: &all})
 			if err != nil {
 				k.Failf("C08/list-error", "List(-1) on n%d: %v", i, err)
+			}
+			var lst []string
+			for _, o := range ops {
+				lst = append(lst, o.GetEntry().GetHash().String())
+			}
+			// what List shows only grows and keeps its order, also while writes are in flight
+			if !isSubsequence(prevList[i], lst) {
+				k.Failf("C08/not-append-only", "n%d listing changed from %v to %v (an entry vanished or two entries swapped)", i, c.names(prevList[i]), c.names(lst))
+			}
+			prevList[i] = lst
+			if !isSubsequence(lst, cur) {
+				k.Failf("C08/list-order", "n%d List(-1) %v is not in the log's order %v", i, c.names(lst), c.names(cur))
+			}
+			// listing == log order once no local write is between its append and its view update
+			if k.opsInFlightOn(i) > 0 {
+				continue
 			}
 			if len(ops) != len(cur) {
 				k.Failf("C08/list-length", "n%d List(-1) returned %d entries, log has %d", i, len(ops), len(cur))
@@ -53,6 +69,12 @@ func scenC08(k *K) {
 	}
 	for i := 0; i < nops; i++ {
 		node := k.C.Intn(n)
+		if k.C.Chance(1, 4) {
+			// concurrent local writers (and whatever replication is under way)
+			c.WriteBurst(node, k.C.Range(2, 3), k.C.Chance(1, 2))
+			k.Steps(k.C.Intn(6))
+			continue
+		}
 		el := c.Stores[node].(iface.EventLogStore)
 		val := c.NextVal(node)
 		if _, err := c.Write(node, "add "+val, func(ctx context.Context) (operation.Operation, error) { return el.Add(ctx, []byte(val)) }); err != nil {
